@@ -47,7 +47,7 @@ def handlers : List (String × (Case → String)) := [
   ("chanv", Drivers.Chan.runV),
   ("multi", Drivers.Multi.run),
   ("multimicro", Drivers.Multi.runMicro),
-  ("multipark", Drivers.Multi.runMicro),
+  ("multipark", Drivers.Multi.runPark),
   ("create", Drivers.Create.run),
   ("tap", Drivers.More.runTap),
   ("pipe", Drivers.More.runPipe),
